@@ -100,8 +100,11 @@ Next == /\ ~row.done
                 /\ row' = Row(row.sc, <<row.m1, m2, m3>>)
            \/ /\ Tier = "thorough"
               /\ \E m2 \in Modes, m3 \in Modes, m4 \in Modes :
-                   /\ (row.m1 + 3 * m2 + 7 * m3 + 11 * m4) % 5 = 0
-                   /\ row' = Row(row.sc, <<row.m1, m2, m3, m4>>)
+                   row' = Row(row.sc, <<row.m1, m2, m3, m4>>)
+           \/ /\ Tier = "thorough"
+              /\ \E m2 \in Modes, m3 \in Modes, m4 \in Modes, m5 \in Modes :
+                   /\ (row.m1 + 3 * m2 + 7 * m3 + 11 * m4 + 13 * m5) % 5 = 0
+                   /\ row' = Row(row.sc, <<row.m1, m2, m3, m4, m5>>)
 
 Spec == Init /\ [][Next]_vars
 
